@@ -20,50 +20,155 @@ def fn(fam, q, t):
 def world(fam, q, t):
     return ("world", fam, q, t)
 
+WQ, WT = (25, 60), (300, 120)        # world families: (sequences, steps per sequence) quick / thorough
+
+# a divergence on a world step counts against the properties whose obligations that operation kind carries
+# (DESIGN §5, attribution by stage); query lines likewise
+KIND_PROPS = {
+    "pair_swap":    {"C01", "C02", "C03", "C06", "C07", "C09", "C10", "C12", "C14"},
+    "tok_send":     {"C01", "C02", "C03", "C04", "C06", "C07", "C10", "C11", "C12", "C13", "C14", "C20"},
+    "pair_provide": {"C03", "C05", "C07", "C09", "C15"},
+    "pair_receive": {"C02", "C03", "C07", "C14"},
+    "pair_upd":     {"C14", "C17"},
+    "r_ops":        {"C01", "C03", "C07", "C11", "C12", "C13"},
+    "r_op":         {"C07", "C13", "C14"},
+    "r_assert":     {"C11", "C14"},
+    "r_receive":    {"C07", "C11", "C13", "C14"},
+    "f_cfg":        {"C14"},
+    "f_create":     {"C14", "C16", "C19"},
+    "f_add":        {"C14", "C17"},
+    "f_mig":        {"C14"},
+    "bank_send":    {"C03", "C07"},
+    "tok_transfer": {"C03", "C07"},
+    "tok_inc":      {"C07"},
+    "tok_burn":     {"C03", "C07"},
+    "query:sim":    {"C01", "C06", "C12"},
+    "query:rsim":   {"C12"},
+    "query:rsimops": {"C12", "C13"},
+    "query:rrev":   {"C12", "C13"},
+    "query:pairs":  {"C19"},
+    "query:lookup": {"C16"},
+}
+
+def kind_of_case(case):
+    """operation kind of a world line (`step seq=.. i=.. <kind> …` / `query seq=.. <kind> …`), None for fn lines"""
+    t = case.split()
+    if len(t) > 3 and t[0] == "step":
+        return t[3]
+    if len(t) > 2 and t[0] == "query":
+        return "query:" + t[2]
+    return None
+
+def counts_against(pid, case):
+    k = kind_of_case(case)
+    if k is None:
+        return True
+    return pid in KIND_PROPS.get(k, {pid})
+
+WORLD_RULE = ("operation sequences on a cw-multi-test world (factory, router, 3 cw20s, 6 denoms with colliding names, 2-5 pairs of all kinds, "
+              "5 actors incl. bystanders with open allowances): mostly-valid operations generated against the live state plus a malformed stream "
+              "(wrong asset/amount/funds, forged Receive, unauthorised callers, malformed routes); every step's result and the full changed ledger are compared with the model; "
+              "non-trivial = implementation accepted the step; distinct by line hash")
+
 PLAN = {
     "C01": {
-        "families": [fn("compute_swap", 200000, 5000000)],
+        "families": [fn("compute_swap", 200000, 5000000), world("swap", WQ, WT), world("route", WQ, WT)],
         "rule": "compute_swap cases: magnitude-stratified 128-bit operands + in-window solver (y*a ≡ -j mod x+a, j*E < x+a) + quotient-zero region + x*y*E overflow frontier; non-trivial = model result ok; distinct by line hash",
         "assumptions": COMMON_ASSUME,
     },
     "C06": {
-        "families": [fn("compute_swap", 200000, 5000000)],
+        "families": [fn("compute_swap", 200000, 5000000), world("swap", WQ, WT)],
         "rule": "compute_swap and compute_swap_mono cases (same generator as C01; every 8th case paired with a larger offer); non-trivial = model result ok; distinct by line hash",
         "assumptions": COMMON_ASSUME,
     },
     "C04": {
-        "families": [fn("refund", 100000, 3000000)],
+        "families": [fn("refund", 100000, 3000000), world("liquidity", WQ, WT)],
         "rule": "refund cases r,a,S: 128-bit stratified reserves, burn amounts at 1, S-1, S, random fraction of S; non-trivial = model result ok",
         "assumptions": COMMON_ASSUME,
     },
     "C05": {
-        "families": [fn("lp_share", 100000, 3000000)],
+        "families": [fn("lp_share", 100000, 3000000), world("liquidity", WQ, WT)],
         "rule": "lp_share cases: empty-pool branch with whitelist in/out × minimum below/at/above × product at 2^128; positive branch with balanced/unbalanced deposits and remainder-boundary solver",
         "assumptions": COMMON_ASSUME,
     },
     "C08": {
-        "families": [fn("bignum", 300000, 10000000)],
+        "families": [fn("bignum", 100000, 10000000)],
         "rule": "every public Uint256/Decimal256 operator, constructor, comparison and conversion on 256-bit operands structured around limb boundaries, factor pairs at 2^256-1/2^256/2^256+1, powers of ten, zero divisors; model computes with Lean GMP naturals",
         "assumptions": COMMON_ASSUME,
     },
     "C09": {
-        "families": [fn("assert_sent", 1, 1)],
+        "families": [fn("assert_sent", 1, 1), world("swap", WQ, WT), world("liquidity", WQ, WT)],
         "rule": "finite matrix enumerated completely: asset kind × declared amount × (matching coin absent / position / amount less, equal, more, zero) × extra unrelated coins × duplicated denom",
         "assumptions": COMMON_ASSUME,
     },
     "C10": {
-        "families": [fn("max_spread", 60000, 2000000)],
+        "families": [fn("max_spread", 60000, 2000000), world("swap", WQ, WT)],
         "rule": "assert_max_spread on all 20×20 decimal pairs × both branches, values solved to sit within ±2 ulp of the limit, zero price, zero return+spread, decimals beyond 19",
         "assumptions": COMMON_ASSUME,
     },
     "C12": {
-        "families": [fn("compute_offer_amount", 100000, 3000000)],
+        "families": [fn("compute_offer_amount", 100000, 3000000), world("swap", WQ, WT), world("route", WQ, WT)],
         "rule": "compute_offer_amount cases: stratified reserves, asks around the feasibility frontier y*(1-c), rates incl. 0, 1-1e-18, 1, >1",
         "assumptions": COMMON_ASSUME,
     },
     "C15": {
-        "families": [fn("slippage", 100000, 3000000)],
+        "families": [fn("slippage", 100000, 3000000), world("liquidity", WQ, WT)],
         "rule": "assert_slippage_tolerance cases: deposits solved so that (d_i/d_j)(1-t) sits within ±2 ulp of r_i/r_j in both directions, balanced deposits, zero deposits/reserves, tolerances incl. 0, 1, >1",
         "assumptions": COMMON_ASSUME,
+    },
+    "C02": {
+        "families": [world("swap", WQ, WT), world("mixed", WQ, WT)],
+        "rule": WORLD_RULE + "; swap steps cross (asset delivered) x (asset named) x (amount named) x (attached funds) x receiver, direct and hook",
+        "assumptions": COMMON_ASSUME + WORLD_ASSUME,
+    },
+    "C03": {
+        "families": [world("mixed", WQ, WT), world("swap", WQ, WT), world("liquidity", WQ, WT), world("route", WQ, WT)],
+        "rule": WORLD_RULE + "; after every step (accepted or rejected) reserve0*reserve1/S^2 of every pair is compared by exact cross-multiplication",
+        "assumptions": COMMON_ASSUME + WORLD_ASSUME,
+    },
+    "C07": {
+        "families": [world("mixed", WQ, WT), world("liquidity", WQ, WT), world("route", WQ, WT), world("auth", WQ, WT)],
+        "rule": WORLD_RULE + "; the full ledger (all accounts x all assets, supplies, allowances) is diffed around every step against the permitted set",
+        "assumptions": COMMON_ASSUME + WORLD_ASSUME,
+    },
+    "C11": {
+        "families": [world("route", WQ, WT), world("mixed", WQ, WT)],
+        "rule": WORLD_RULE + "; routes of 1-4 hops, both entry points, minimum_receive at quote-1/quote/quote+1/0/max, other traders' swaps between quote and execution",
+        "assumptions": COMMON_ASSUME + WORLD_ASSUME,
+    },
+    "C13": {
+        "families": [fn("assert_operations", 20000, 500000), world("route", WQ, WT)],
+        "rule": WORLD_RULE + "; plus assert_operations on hop lists over asset texts shared between denoms and token addresses",
+        "assumptions": COMMON_ASSUME + WORLD_ASSUME,
+    },
+    "C14": {
+        "families": [world("auth", WQ, WT), world("factory", WQ, WT), world("mixed", WQ, WT)],
+        "rule": WORLD_RULE + "; every execute variant of the three contracts from owner / former owner / stranger / hook-delivering cw20s, before and after ownership transfer",
+        "assumptions": COMMON_ASSUME + WORLD_ASSUME,
+    },
+    "C16": {
+        "families": [fn("pair_key", 20000, 1000000), world("factory", WQ, WT), world("mixed", WQ, WT)],
+        "rule": "pair_key on all ordered pairs and all pairs of unordered sets over a pool of identifiers built to collide under concatenation (shared prefixes, equal text in different kinds, real MockApi-canonical bytes); " + WORLD_RULE,
+        "assumptions": COMMON_ASSUME + WORLD_ASSUME,
+    },
+    "C17": {
+        "families": [world("factory", WQ, WT)],
+        "rule": WORLD_RULE + "; factory family: up to 17 pairs over 6 denoms, decimals re-registrations interleaved with creations",
+        "assumptions": COMMON_ASSUME + WORLD_ASSUME,
+    },
+    "C18": {
+        "families": [fn("text", 6000, 1000000)],
+        "rule": "all strings over {0,1,5,9,.,x,-} up to length 5 (7 in thorough) exhaustively through from_str/try_from/serde; structured 256-bit values (limb boundaries, powers of ten, leading/trailing fractional zeros, maxima) through to_string / round trips / JSON; 77-80 digit wholes; 17/18/19 fractional digits; width conversions",
+        "assumptions": COMMON_ASSUME + ["serde-json-wasm string encoding/decoding as modelled in Halo/Text.lean (no escapes occur in numerals)"],
+    },
+    "C19": {
+        "families": [fn("read_pairs", 3000, 100000), world("factory", WQ, WT)],
+        "rule": "read_pairs over real MockStorage/PAIRS: registries of 0-40 pairs over shared-prefix denoms and canonical addresses, page sizes 1-40 and absent, registered and unregistered cursors in both orders, complete walks; NoLowExt evaluated on the real keys; " + WORLD_RULE,
+        "assumptions": COMMON_ASSUME + WORLD_ASSUME,
+    },
+    "C20": {
+        "families": [world("liquidity", WQ, WT), world("mixed", WQ, WT)],
+        "rule": WORLD_RULE + "; withdrawal attempts after every kind of prefix (donations, extreme swaps, further provisions, LP transfers); the oracle demands success whenever the entitlement condition holds in the observed state",
+        "assumptions": COMMON_ASSUME + WORLD_ASSUME,
     },
 }
